@@ -7,7 +7,8 @@ LEVEL = "proof"
 LEAN_MODULE = "Frost.Props.C03"
 THEOREMS = ["Frost.C03.sign_refuses_few", "Frost.C03.aggregate_refuses_few", "Frost.C03.aggregate_refuses_mismatch",
             "Frost.C03.reconstruct_refuses_few", "Frost.C03.below_threshold_iff", "Frost.C03.at_threshold",
-            "Frost.C03.reconstruct_eq"]
+            "Frost.C03.reconstruct_eq",
+            "Frost.C03.one_fewer_iff_top_coefficient"]
 RULE = ("one case = one subset S' of key holders with 1<=|S'|<t, either with honest thresholds (refusals) or with min_signers lowered in every key package and in the public key package (forgery attempt + reconstruction); "
         "non-trivial = the refusal guard decided, or the lowered-threshold run reached aggregation / reconstruction; distinct = distinct hash of (suite, key material, subset, variant)")
 ASSUMPTIONS = ["as a security claim (no other way to forge) this is unforgeability and outside any algebraic model; the property's own quantifier (every subset of size <t, honest and lowered min_signers, honest algorithm otherwise) is what below_threshold_iff covers",
@@ -150,7 +151,7 @@ def search(sess, disagreements):
     generate(sess)
 
 
-LEVEL_TEXT = ("Lean 4 theorems: the three refusals (sign: IncorrectNumberOfCommitments, aggregate: IncorrectNumberOfShares / UnknownIdentifier on size mismatch, reconstruct) for every suite and input; `below_threshold_iff`: for ANY k distinct holders running the honest algorithm with min_signers lowered everywhere, aggregation releases a signature iff c*(sum lambda_i f(i) - f(0)) = 0 (and by C04 anything released is valid), `reconstruct_eq`: interpolating k shares returns sum lambda_i s_i. All for every field/module/suite/size. "
+LEVEL_TEXT = ("Lean 4 theorems: the three refusals (sign: IncorrectNumberOfCommitments, aggregate: IncorrectNumberOfShares / UnknownIdentifier on size mismatch, reconstruct) for every suite and input; `below_threshold_iff`: for ANY k distinct holders running the honest algorithm with min_signers lowered everywhere, aggregation releases a signature iff c*(sum lambda_i f(i) - f(0)) = 0 (and by C04 anything released is valid), `reconstruct_eq`: interpolating k shares returns sum lambda_i s_i; `one_fewer_iff_top_coefficient`: t-1 holders interpolate to the secret iff the top coefficient of the sharing polynomial is zero. All for every field/module/suite/size. "
               "Correspondence/oracle: every subset of size 1..t-1 (sampled for larger n) with honest and with lowered thresholds on toy suites vs. the model and on the six real suites; expectation computed from the exact coincidence condition by independent arithmetic.")
-LEVEL_NOTE = ("The step from the exact algebraic condition to 'never' is the negligible-probability coincidence (c=0 or the k shares interpolating to f(0)); the corollary 'iff a_{t-1}=0 for k=t-1' is not yet mechanised. Unforgeability beyond the honest algorithm is a cryptographic assumption, not claimed. Trusted: as C01.")
+LEVEL_NOTE = ("The step from the exact algebraic condition to 'never' is the negligible-probability coincidence (c=0 or the k shares interpolating to f(0)); for k = t-1 the coincidence is exactly 'top coefficient zero' (one_fewer_iff_top_coefficient). Unforgeability beyond the honest algorithm is a cryptographic assumption, not claimed. Trusted: as C01.")
 TECHNIQUE = "Lean 4 proof (decision logic + exact algebraic characterisation) + differential correspondence + oracle"
